@@ -203,9 +203,12 @@ T(t_montymul)(T(ctx) *c)
 				cb & 1, (cb >> 1) & 1, (cb >> 2) & 1, (cb >> 3) & 1, (int)(c->n & 3));
 		}
 		if (combo == 5) {
-			vf_sample("{\"v\":\"%s\",\"fn\":\"montymul\",\"k\":%u,\"pads\":[%d,%d,%d,%d],\"m0i\":%u,\"m_words\":\"%s\",\"d_words\":\"%s\"}",
+			vf_sample("{\"v\":\"%s\",\"fn\":\"montymul\",\"k\":%u,\"pads_dxym\":[%d,%d,%d,%d],\"m0i\":%u,"
+				"\"m_words_le\":\"%s\",\"x_words_le\":\"%s\",\"y_words_le\":\"%s\",\"d_words_le\":\"%s\",\"equal_to_gmp\":%d}",
 				VAR_NAME, c->k, (int)pd, (int)px, (int)py, (int)pm, (unsigned)c->m0i,
-				vf_hexs(om.p, (c->n + 1) * sizeof(W)), vf_hexs(od.p, (c->n + 1) * sizeof(W)));
+				vf_hexs(om.p, (c->n + 1) * sizeof(W)), vf_hexs(ox.p, (c->n + 1) * sizeof(W)),
+				vf_hexs(oy.p, (c->n + 1) * sizeof(W)), vf_hexs(od.p, (c->n + 1) * sizeof(W)),
+				memcmp(od.p, oe.p, (c->n + 1) * sizeof(W)) == 0);
 		}
 		T(op_free)(&od); T(op_free)(&ox); T(op_free)(&oy); T(op_free)(&om); T(op_free)(&oe);
 	}
@@ -595,7 +598,7 @@ T(t_modpow_opt)(T(ctx) *c, int which)
 		}
 	}
 	/* thorough: now and then a full-size exponent with the largest window */
-	if (g_thorough && c->pat == 0 && c->k % 128 == 0) {
+	if (g_thorough && c->pat == 0 && c->k % 127 == 0) {
 		T(modpow_opt_one)(c, which, top * mul, c->mb, 4, 7, min_doc * mul, min_impl * mul, WCLASS(top));
 		vf_stat("modpow_opt_fullsize_exponent", 1);
 	}
